@@ -178,6 +178,9 @@ func loadDeb(archive *Ar) (*Deb, error) {
 		if err != nil {
 			return nil, err
 		}
+		if _, found := contents[member.Name]; found {
+			return nil, fmt.Errorf("Archive contains two members named '%s'", member.Name)
+		}
 		contents[member.Name] = member
 	}
 	member, ok := contents["debian-binary"]
